@@ -15,3 +15,5 @@ INVARIANTS
   C14_NoLengtheningConfed
   C14_IgnoreLongerAs4
   C14_IgnoreLongerAs4Confed
+  C14_GroupInputIntact
+  C14_SharedListUnchanged
